@@ -145,19 +145,41 @@ def _reach_dump():
         return {}
 
 
+class CaseTimeout(BaseException):
+    """Raised by the per-case wall-clock watchdog (generous; its firing is INCONCLUSIVE, never a violation)."""
+
+
+def _alarm(signum, frame):
+    raise CaseTimeout()
+
+
 def run_cases(ctx, mod, cases):
-    """Drive mod.run over cases, isolating harness errors per case."""
+    """Drive mod.run over cases, isolating harness errors per case; a per-case watchdog bounds every run."""
+    import signal
+
+    limit = float(os.environ.get("VERIF_CASE_TIMEOUT", str(getattr(mod, "CASE_TIMEOUT", 180))))
+    use_alarm = hasattr(signal, "setitimer")
+    if use_alarm:
+        signal.signal(signal.SIGALRM, _alarm)
     for case in cases:
         ctx.case = case
         ctx.evaluations += 1
         try:
+            if use_alarm:
+                signal.setitimer(signal.ITIMER_REAL, limit)
             mod.run(ctx, case)
+        except CaseTimeout:
+            ctx.inconc("watchdog: a case did not finish within %.0f s (case kept in the evidence)" % limit)
+            ctx.sample({"timed_out_case": case}, limit=6)
         except Exception:
             tb = traceback.format_exc()
             if len(ctx.harness_errors) < 10:
                 ctx.harness_errors.append({"case": case, "traceback": tb[-3000:]})
             else:
                 ctx.harness_errors.append({"traceback": tb[-300:]})
+        finally:
+            if use_alarm:
+                signal.setitimer(signal.ITIMER_REAL, 0)
         ctx.case = None
 
 
